@@ -55,7 +55,8 @@ Fixpoint scert (p : pat) {struct p} : list var :=
   | PFilter _ | PBind _ _ => []
   | PValues vs rows => values_cert vs rows
   | PSub s => match s with
-              | Sel _ (Some items) w _ _ _ => inter (map item_var items) (scert w)
+              | Sel _ (Some items) w gb _ _ =>
+                  match aggs_of (Some items), gb with [], [] => inter (map item_var items) (scert w) | _, _ => [] end
               | Sel _ None w _ _ _ => scert w
               end
   end.
